@@ -63,8 +63,9 @@ Grow(b) == parent[b] \in acc /\ b \notin acc
 GNext == /\ Len(hist) < Depth /\ ~Ended
          /\ \/ "submit" \in Ops /\ \E b \in Blocks : /\ Kind("submit") \/ (Kind("grow") /\ Grow(b))
                                                      /\ Dict(b) /\ LeanOK(b) /\ Submit(b) /\ (Ties \/ NoTie') /\ Step("submit", b)
-            \/ "clean" \in Ops /\ Kind("clean") /\ last.op # "clean" /\ Clean /\ Step("clean", 0)
-            \/ "save" \in Ops /\ Kind("save") /\ last.op # "save" /\ Save /\ Step("save", 0)
+            \* an operation repeated with nothing in between is only worth a step when a script asks for it
+            \/ "clean" \in Ops /\ Kind("clean") /\ (Script # <<>> \/ last.op # "clean") /\ Clean /\ Step("clean", 0)
+            \/ "save" \in Ops /\ Kind("save") /\ (Script # <<>> \/ last.op # "save") /\ Save /\ Step("save", 0)
             \/ "load" \in Ops /\ Kind("load") /\ Load /\ Step("load", 0)
             \/ "legacy" \in Ops /\ Kind("legacy") /\ \E b \in AllB : LoadLegacy(b) /\ Step("legacy", b)
             \/ "reload" \in Ops /\ Kind("reload") /\ Reload
